@@ -36,6 +36,7 @@ NEW = "_x_new_hash_list"
 WRITES = f"(old({H} in self.new_hash_lists) or old({H} in referenced_hash_lists))"
 contract(
     "ascmhl.generator.MHLGenerationCreationSession.commit",
+    slices=6,
     params={"creator_info": "MHLCreatorInfo", "process_info": "MHLProcessInfo"},
     body_of_loop=0,
     locals={"history": "MHLHistory", "referenced_hash_lists": "defaultdict[MHLHistory,list[MHLHashList]]", "new_hash_list": "MHLHashList"},
